@@ -86,11 +86,17 @@ def c01(tier, rep):
     progs += p3
     fr = e2.run_family("c01sync", progs)
     judge_family(rep, fr)
+    from . import fam_operands as fo
+
+    op = fo.operand_programs(tier) + fo.initial_programs()
+    fro = e2.run_family("c01operands", op, extra_header=fo.PRE)
+    judge_family(rep, fro)
+    rep.set("operand_corpus_programs", len(op))
     rep.set("states", len(stats["kinds"]))
     rep.set("transitions", len(stats["rows"]))
     rep.set("operator_pairs", len(stats["pairs"]))
     rep.set("operator_triples", len(stats["triples"]))
-    rep.set("rule", "all paths of the typed operator transition system (%s); every program runs on every row of its start kind's input table and is compared, value and full callback trace, with the documented method chain compiled in the same binary; non-trivial = trace non-empty and >= 2 distinct outcomes over its rows" % bound)
+    rep.set("rule", "all paths of the typed operator transition system (%s); every program runs on every row of its start kind's input table and is compared, value and full callback trace, with the documented method chain compiled in the same binary; non-trivial = trace non-empty and >= 2 distinct outcomes over its rows; operand corpus: 16 operator sites x every operand form of its role (typed / untyped / move closures, fn paths, turbofish, parenthesised, closure-returning calls, closures with operator look-alikes and return types, block captures, nested macro calls) x every following operator; initial-operand corpus: 30 initial expressions (unary, binary, cast, reference, comparison, if/match, closure, range, tuple/array) x {single branch, second branch, let}" % bound)
     for p in progs[:: max(1, len(progs) // 5)][:5]:
         rep.sample({"dsl": p.meta["dsl"], "reference": p.meta["ref"], "result": fr.results.get(p.id, {}).get("sample")})
 
